@@ -52,6 +52,47 @@ HolidaySound == \A k \in {"public", "school"}, off \in {-2, -1, 0, 1, 3} :
                       h == WeekdayHint(r, n, HCtx)
                   IN SoundS(IF h = DateEnd THEN h ELSE h + Late, 1600, 1, LAMBDA d : WeekdayMatch(r, d, HCtx))
 
+\* date ranges: the matched set only changes at a projected start or the day after a projected end, so these days (and their
+\* neighbours), for the years around n and the years the bounds are attached to, are the probes
+Dt(year, month, day) == [t |-> "fixed", year |-> year, month |-> month, day |-> day]
+Ea(year) == [t |-> "easter", year |-> year]
+Bd(date, wsign, wday, days) == [date |-> date, wsign |-> wsign, wday |-> wday, days |-> days]
+B0(date) == Bd(date, 0, 0, 0)
+DR(b1, b2) == [t |-> "date", s |-> b1, e |-> b2]
+DateRanges ==
+  {DR(B0(Dt(-1, 12, 25)), B0(Dt(-1, 1, 5))), DR(B0(Dt(-1, 3, 1)), B0(Dt(-1, 3, 31))), DR(B0(Dt(-1, 1, 31)), B0(Dt(-1, 2, 29))),
+   DR(B0(Dt(-1, 7, 14)), B0(Dt(-1, 7, 14))), DR(B0(Dt(-1, 2, 29)), B0(Dt(-1, 2, 29))), DR(B0(Dt(2024, 2, 29)), B0(Dt(2024, 2, 29))),
+   DR(B0(Dt(-1, 4, 31)), B0(Dt(-1, 4, 31))), DR(B0(Ea(-1)), B0(Ea(-1))), DR(Bd(Ea(-1), 0, 0, -2), Bd(Ea(-1), 0, 0, 1)),
+   DR(B0(Ea(-1)), B0(Dt(-1, 6, 1))), DR(B0(Dt(-1, 2, 21)), B0(Ea(-1))), DR(B0(Dt(2025, 2, 21)), B0(Ea(-1))),
+   DR(B0(Dt(2040, 2, 21)), B0(Ea(-1))), DR(B0(Ea(2025)), B0(Dt(2025, 6, 1))), DR(B0(Ea(2040)), B0(Dt(2040, 6, 1))),
+   DR(B0(Dt(2024, 3, 28)), B0(Dt(-1, 4, 16))), DR(B0(Dt(2024, 12, 20)), B0(Dt(2025, 1, 10))), DR(B0(Dt(2024, 12, 20)), B0(Dt(-1, 1, 10))),
+   DR(B0(Dt(2040, 12, 20)), B0(Dt(-1, 1, 10))), DR(B0(Dt(2019, 9, 1)), B0(Dt(2019, 12, 31))), DR(B0(Dt(2024, 3, 1)), B0(Dt(-1, 2, 29))),
+   DR(Bd(Dt(-1, 5, 1), 1, 0, 0), Bd(Dt(-1, 9, 30), -1, 4, 0)), DR(Bd(Dt(-1, 1, 1), 0, 0, 2), Bd(Dt(-1, 1, 1), 0, 0, 9)),
+   DR(B0(Dt(-1, 12, 31)), B0(Dt(-1, 12, 31))), DR(B0(Dt(-1, 1, 1)), B0(Dt(-1, 12, 31))), DR(B0(Dt(2024, 1, 1)), B0(Dt(9999, 12, 31))),
+   DR(B0(Dt(-1, 9, 1)), B0(Dt(-1, 12, 31))), DR(B0(Dt(2025, 2, 21)), B0(Ea(2030)))}
+AnchorYears(r) == (IF HasYear(r.s.date) THEN {r.s.date.year, r.s.date.year + 1} ELSE {})
+                  \cup (IF HasYear(r.e.date) THEN {r.e.date.year, r.e.date.year + 1} ELSE {})
+DateProbes(r) ==
+  LET Ys == ((YearOf(n) - 1)..(YearOf(n) + 12)) \cup AnchorYears(r)
+      bs == ({BoundAt(r.s, Y, TRUE) : Y \in Ys} \cup {BoundAt(r.e, Y, FALSE) : Y \in Ys}) \ {NoDate}
+  IN UNION {{b - 1, b, b + 1} : b \in bs} \cup {n + 1}
+DateDays == {Lo + 3 * k : k \in 0..400} \cup {DaysFromCivil(2010, 6, 1), DaysFromCivil(2019, 12, 31), DaysFromCivil(2030, 3, 1)}
+DateSound == (n \in DateDays) =>
+               \A r \in DateRanges :
+                  LET h0 == DateHint(r, n)
+                      h  == IF h0 = NONE \/ h0 >= DateEnd THEN h0 ELSE h0 + Late
+                  IN h = NONE \/ (h > n /\ \A d \in DateProbes(r) :
+                                     (n < d /\ d < h /\ d < DateEnd /\ DateDet(r, d) /\ DateDet(r, n)) => DateMatch(r, d) = DateMatch(r, n))
+\* non-vacuity of the R21 clause: without the years the bounds are attached to, the hint from 2024 for a range of 2040 is unsound
+DateHintNear(r) ==
+  LET y == YearOf(n)
+      years == SortedSeq((y - 1)..(y + 10))
+  IN NextFromBounds(n, ProjAll(r.s, years, TRUE), ProjAll(r.e, years, FALSE))
+DateSoundR21 == (n \in DateDays) =>
+                  LET r == DR(B0(Dt(2040, 2, 21)), B0(Ea(-1)))
+                      h == DateHintNear(r)
+                  IN h > n /\ \A d \in DateProbes(r) : (n < d /\ d < h /\ d < DateEnd) => DateMatch(r, d) = DateMatch(r, n)
+
 -----------------------------------------------------------------------------
 \* part 2: expressions
 AllNth == <<TRUE, TRUE, TRUE, TRUE, TRUE>>
